@@ -468,6 +468,8 @@ func c04Enum(c *core.Ctx, p c04Params) {
 		c04NoQueue(c, "a.b")
 		c04NoQueue(c, "")
 		c04NoLogger(c)
+		c04WideOwnership(c, "library")
+		c04WideOwnership(c, "a.b")
 		c04Restart(c, 1)
 		c04Restart(c, 3)
 	}
@@ -551,6 +553,63 @@ func c04NoQueue(c *core.Ctx, name string) {
 				c.Violation("C04/"+kind+":noqueue", fmt.Sprintf("without queue group, request %s was delivered through %d subscriptions and got %d responses", subj, delivered, len(resp)), w)
 			}
 		}
+	}
+}
+
+// c04WideOwnership: a named service that owns more than its own name space (the
+// documented SetOwnedResources form for e.g. an auth service answering every
+// access request). Requests for resource names outside the name space - shorter
+// than the service name, a strict prefix of it, sharing a prefix with it - reach
+// the service; each gets exactly one response and the service stays up.
+func c04WideOwnership(c *core.Ctx, name string) {
+	for _, own := range [][2][]string{{nil, {">"}}, {{">"}, {">"}}, {{name + ".>", "auth.>"}, {"*", "*.>"}}} {
+		tbl := &scriptTable{}
+		rg := newRig(name, func(s *res.Service) {
+			scriptedService(s, tbl, nil)
+			s.SetOwnedResources(own[0], own[1])
+		})
+		if err := rg.start(); err != nil {
+			c.Inconclusive("service failed to start: " + err.Error())
+			return
+		}
+		id := tbl.add(scriptEntry{sc: script{{Op: "reply", K: "ok"}}, getSc: script{{Op: "reply", K: "model"}}})
+		names := []string{"a", "b.c", "auth", "auth.user.42", name[:1], name[:len(name)-1], name[:len(name)-1] + ".x", name + "x", name + "x.y", name, name + ".zzz",
+			name + ".m." + id, "x" + name, strings.ToUpper(name), "zzzzzzzzzzzzzzzz.q", "~"}
+		for _, rn := range names {
+			for _, subj := range []string{"access." + rn, "get." + rn, "call." + rn + ".do", "auth." + rn + ".login", "call." + rn + ".new"} {
+				start := rg.C.Len()
+				before := atomic.LoadInt64(&doneCount)
+				inbox, _, delivered := rg.send(subj, []byte(`{"cid":"abc","token":null}`))
+				if delivered == 0 {
+					continue // outside what this configuration owns
+				}
+				c.Eval(1)
+				c.Obs("wide_ownership_requests", 1)
+				w := map[string]interface{}{"service": name, "owned_resources": own[0], "owned_access": own[1], "subject": subj}
+				deadline := time.Now().Add(15 * time.Second)
+				for atomic.LoadInt64(&doneCount) < before+int64(delivered) && time.Now().Before(deadline) {
+					time.Sleep(200 * time.Microsecond)
+				}
+				resp, _ := replies(rg.C.Since(start), inbox)
+				if atomic.LoadInt64(&doneCount) < before+int64(delivered) && len(resp) > 0 {
+					c.Inconclusive("request.done not seen for " + subj)
+					rg.stop()
+					return
+				}
+				c.Distinct("wide/" + name + "/" + subj)
+				if len(resp) != 1 {
+					w["responses"] = payloadStrs(resp)
+					kind := "multiple-responses"
+					if len(resp) == 0 {
+						kind = "no-response"
+					}
+					c.Violation("C04/"+kind+":outside-own-namespace", fmt.Sprintf("service %q owning %v/%v: request %s got %d responses", name, own[0], own[1], subj, len(resp)), w)
+					rg.stop()
+					return
+				}
+			}
+		}
+		rg.stop()
 	}
 }
 
